@@ -79,6 +79,13 @@ partial def parsePayload (d : DS) (p : List Char) : Option Val :=
     | [a, b] => do some (.pair (← a.toInt?) (← b.toInt?))
     | _ => none
   | 'r' :: r => (String.ofList r).toNat?.map .ref
+  | 'f' :: r => if r = ['N'] then some (.flt none) else (String.ofList r).toInt?.map (fun n => .flt (some n))
+  | 'c' :: r =>
+    let num (x : String) : Option (Option Int) := if x == "N" then some none else x.toInt?.map some
+    match (String.ofList r).splitOn "_" with
+    | [a, b] => do some (.cplx (← num a) (← num b))
+    | _ => none
+  | 'w' :: r => parseVal d ((r.dropWhile (· ≠ '[')).drop 1).dropLast      -- `w<k>[val]`: a boxed value shared under key k
   | 't' :: '[' :: r => ((splitTop r.dropLast).mapM (parsePayload d)).map .tuple
   | 'v' :: '[' :: r => parseVal d r.dropLast
   | _ => none
@@ -185,7 +192,7 @@ def step (mode : Mode) (d : DS) (k : Nat) (a : List String) : Option (DS × Stri
         | none => some (d, "clean")
     else if op == "E" then do
       let x ← parsePayload.parseVal d v.toList
-      let y ← parsePayload.parseVal d t.toList
+      let y ← if t == "=" then some x else parsePayload.parseVal d t.toList      -- `=`: the very same boxed object
       let r := if (mode = .model ∨ mode = .cover) then ifaceEqual d.st x y else ifaceEqS d.st x y
       some (d, match r with | .tt => "true" | .ff => "false" | .panic => "panic")
     else ctorStep mode d k a
